@@ -7,6 +7,24 @@ Import ListNotations.
 Open Scope list_scope.
 Open Scope N_scope.
 
+(* case files carry their texts as Coq string literals (UTF-8 bytes), decoded here into code points;
+   this is harness glue: a decoding slip shows up as a disagreement on every non-ASCII case *)
+Require Export Coq.Strings.String.
+Fixpoint u8go (l : list N) (need : nat) (acc : N) : str :=
+  match l with
+  | [] => []
+  | b :: r =>
+    match need with
+    | O => if b <? 128 then b :: u8go r 0 0
+           else if b <? 224 then u8go r 1 (b - 192)
+           else if b <? 240 then u8go r 2 (b - 224)
+           else u8go r 3 (b - 240)
+    | S k => let acc' := acc * 64 + (b - 128) in
+             match k with O => acc' :: u8go r 0 0 | _ => u8go r k acc' end
+    end
+  end.
+Definition u8 (s : string) : str := u8go (List.map N_of_ascii (list_ascii_of_string s)) 0 0.
+
 (* own query of a referenced rule: its bracket tree (a query that is not a well-formed bracket text is
    kept as one text run; such a case is outside the theorem's domain) *)
 Definition pq (s : str) : list node := match readc s with Some t => t | None => [T s] end.
